@@ -85,6 +85,16 @@ def load_witnesses():
 
 
 def judge(ctx, behs, opts, name, expect=None):
+    """Chunked so that one monitor run stays below ~25 000 events; returns the trace of the first chunk."""
+    per = max(1, 25000 // max(1, (sum(3 * len(b) + 3 for b in behs) // max(1, len(behs)))))
+    first = None
+    for i in range(0, len(behs), per):
+        t = judge1(ctx, behs[i:i + per], opts, name if i == 0 else "%s_%d" % (name, i // per), expect if i == 0 else None)
+        first = first or t
+    return first
+
+
+def judge1(ctx, behs, opts, name, expect=None):
     """Drive the histories through the real chain with the given parameter table and let the monitor judge the trace.
     expect: {behaviour index: label} of design-level counterexamples that must show a monitor failure."""
     if not behs:
@@ -92,7 +102,7 @@ def judge(ctx, behs, opts, name, expect=None):
     bpath = ctx.path("behaviours_%s.ndjson" % name)
     vlib.write_ndjson(bpath, behs)
     trace = ctx.path("trace_%s.ndjson" % name)
-    info = ctx.drive("staking", trace, behaviours=bpath, opts=opts)
+    info = ctx.drive("staking", trace, behaviours=bpath, opts=opts, timeout=2400)
     ctx.cov["traces_validated_against_impl"] += len(behs)
     ctx.cov["evaluations"] += len(behs)
     ctx.cov["distinct_nontrivial"] += len({json.dumps(b, sort_keys=True) for b in behs if nontrivial(b)})
